@@ -26,7 +26,7 @@ pub fn def() -> CheckDef {
                read timeout firing. Oracles over the recorded wire history (events carry the scheduler's global sequence \
                number): release() is Ok only if the next PDU from the peer after the ones already consumed is A-RELEASE-RP, and \
                Err otherwise (abort, data, release request, unknown PDU, closed connection); after release/abort returned the \
-               side's descriptor is closed; a side sends nothing after its A-ABORT or A-RELEASE-RP, no P-DATA after its \
+               side's descriptor is closed; send() Ok means the P-DATA PDU is completely on the wire, in order; receive() Ok returns the peer's next PDU in order (both judged up to the first failed operation); a side sends nothing after its A-ABORT or A-RELEASE-RP, no P-DATA after its \
                A-RELEASE-RQ, and an A-RELEASE-RP only after it received an A-RELEASE-RQ; abort() puts an A-ABORT on the wire \
                unless the connection already failed. Liveness: every node returns within the step budget once the peer has \
                answered or the connection is closed. distinct = distinct hashed scheduler event sequences; non-trivial = a \
@@ -34,7 +34,7 @@ pub fn def() -> CheckDef {
         real: &["ClientAssociation, ServerAssociation, AsyncClientAssociation, AsyncServerAssociation: send, receive, release, abort, Drop", "establish / establish_async on both sides", "std and tokio TcpStream, mio, tokio current-thread runtime"],
         stub: &["TCP/IP (simulated queues; cut, failing send, timeout as scheduler events)", "stub peer (independent PS3.8 encoder)", "application scripts", "PS3.8 send-sequence acceptor (oracle)"],
         assumptions: &["the storescp tool loops are exercised by C32's nodes; here the acceptor application is a scripted loop over the library API", "loss/duplication/reordering of bytes is not injected (TCP does not do that); connection-level faults are"],
-        required_probes: &["release-ok", "served-release", "release-collision", "release-got-abort", "release-got-data", "release-on-closed", "abort-sent", "reply-split-across-reads", "fault-during-release"],
+        required_probes: &["release-ok", "send-ok-on-wire", "receive-ok-in-order", "served-release", "release-collision", "release-got-abort", "release-got-data", "release-on-closed", "abort-sent", "reply-split-across-reads", "fault-during-release"],
         net: true,
     }
 }
@@ -112,6 +112,19 @@ fn kind_of(p: &Pdu) -> &'static str {
         Pdu::AssociationAC(_) => "ASSOC-AC",
         Pdu::AssociationRJ(_) => "ASSOC-RJ",
         Pdu::Unknown { .. } => "UNKNOWN",
+    }
+}
+
+fn ref_kind(p: &RPdu) -> &'static str {
+    match p {
+        RPdu::PData(_) => "P-DATA",
+        RPdu::ReleaseRq => "RELEASE-RQ",
+        RPdu::ReleaseRp => "RELEASE-RP",
+        RPdu::Abort { .. } => "ABORT",
+        RPdu::AssocRq(_) => "ASSOC-RQ",
+        RPdu::AssocAc(_) => "ASSOC-AC",
+        RPdu::AssocRj { .. } => "ASSOC-RJ",
+        RPdu::Unknown { .. } => "UNKNOWN",
     }
 }
 
@@ -526,6 +539,48 @@ fn check_side(env: &EnvRef, who: &str, side: &Side, ep: &simnet::Endpoint, peer:
             _ => {}
         }
     }
+    // --- what an Ok means: sends are on the wire in order, receives return the peer's PDUs in order
+    //     (judged up to the first failed operation: a failed send may leave a partial PDU behind)
+    let mut wire_idx = 0usize;
+    for l in &side.log {
+        if !l.ok {
+            break;
+        }
+        if l.op.starts_with("Send(") {
+            let n: usize = l.op[5..l.op.len() - 1].parse().unwrap_or(0);
+            match sent.get(wire_idx) {
+                Some((RPdu::PData(pdvs), _, done)) if pdvs.iter().map(|v| v.data.len()).sum::<usize>() == n && *done <= l.seq_end => {}
+                other => fail!(
+                    "ok-means-done",
+                    format!("c30:{}:send-ok-not-on-wire", who),
+                    "{}: send() of a {}-byte P-DATA returned Ok but PDU #{} this side put on the wire is {:?}",
+                    who,
+                    n,
+                    wire_idx + 1,
+                    other.map(|x| (x.0.kind(), x.2))
+                ),
+            }
+            wire_idx += 1;
+            env.probe("send-ok-on-wire");
+        } else if l.op == "Recv" {
+            match recvd.get(l.consumed_before) {
+                Some((p, s)) if ref_kind(p) == l.detail && *s <= l.seq_end => {}
+                other => fail!(
+                    "ok-means-done",
+                    format!("c30:{}:receive-ok-wrong-pdu", who),
+                    "{}: receive() returned Ok({}) as PDU #{} from the peer, but the peer's PDU #{} (as delivered so far) is {:?}",
+                    who,
+                    l.detail,
+                    l.consumed_before + 1,
+                    l.consumed_before + 1,
+                    other.map(|x| (x.0.kind(), x.1))
+                ),
+            }
+            env.probe("receive-ok-in-order");
+        } else {
+            break;
+        }
+    }
     // --- the API outcomes
     for l in &side.log {
         if l.op == "Release" {
@@ -645,6 +700,125 @@ fn run(cfgi: usize, w: &mut Tape, env: &EnvRef) -> RunResult {
     }
     if acc_real {
         check_side(env, "acceptor", &a, &end.eps[conn.a], &end.eps[conn.b], faults)?;
+    }
+    Ok(())
+}
+
+// ------------------------------------------------------------------ C34, association level
+//
+// The same sessions with the connection lost at an enumerated byte offset of what the real side
+// sends or receives: every association operation must return Err, or Ok with its effect complete.
+
+struct Session {
+    side: Side,
+    sent: usize,
+    received: usize,
+    finished: bool,
+    stuck: Vec<String>,
+    panicked: Option<String>,
+    end: simnet::EndState,
+    real_ep: usize,
+    peer_ep: usize,
+}
+
+fn one_session(env: &EnvRef, seed: u64, real_is_requestor: bool, is_async: bool, script: &[Op], stub: &[StubOp], cut_sent: Option<usize>, cut_received: Option<usize>) -> Session {
+    simnet::begin(env, seed);
+    let conn = simnet::connection(if real_is_requestor { Some(104) } else { None });
+    let res = shared(Side::default());
+    let (real_ep, peer_ep) = if real_is_requestor { (conn.b, conn.a) } else { (conn.a, conn.b) };
+    simnet::with_net(|n| {
+        n.eps[real_ep].cut_after_sent = cut_sent;
+        n.eps[real_ep].cut_after_received = cut_received;
+    });
+    if real_is_requestor {
+        spawn_stub(simnet::fd_of(conn.a), false, stub.to_vec());
+        spawn_real_requestor(script.to_vec(), is_async, false, &res);
+    } else {
+        spawn_real_acceptor(script.to_vec(), simnet::fd_of(conn.a), is_async, false, &res);
+        spawn_stub(simnet::fd_of(conn.b), true, stub.to_vec());
+    }
+    let rep = simnet::run(60_000);
+    let end = simnet::end();
+    if end.needs_restart {
+        simnet::request_restart();
+    }
+    let panicked = end.nodes.iter().find_map(|n| n.panicked.as_ref().map(|p| format!("{}: {}", n.name, p)));
+    let side = res.lock().unwrap().clone();
+    Session { side, sent: end.eps[real_ep].sent.len(), received: end.eps[real_ep].received, finished: rep.finished, stuck: rep.stuck, panicked, end, real_ep, peer_ep }
+}
+
+pub fn run_assoc_faults(cfgi: usize, w: &mut Tape, env: &EnvRef) -> RunResult {
+    let real_is_requestor = cfgi % 2 == 0;
+    let is_async = cfgi / 2 % 2 == 1;
+    let who = match (real_is_requestor, is_async) {
+        (true, false) => "requestor-sync",
+        (true, true) => "requestor-async",
+        (false, false) => "acceptor-sync",
+        (false, true) => "acceptor-async",
+    };
+    // a small conversation: the stub answers every data PDU with one of its own and serves the release
+    let n1 = w.below(200);
+    let n2 = w.below(40);
+    let variant = w.below(4);
+    let (script, stub): (Vec<Op>, Vec<StubOp>) = match variant {
+        0 => (vec![Op::Send(n1), Op::Recv, Op::Release], vec![StubOp::RecvOne, StubOp::Send(RPdu::PData(vec![RPdv { ctx: 1, header: 2, data: vec![9; n2 as usize] }])), StubOp::Serve, StubOp::Close]),
+        1 => (vec![Op::Recv, Op::Send(n1), Op::Abort], vec![StubOp::Send(RPdu::PData(vec![RPdv { ctx: 1, header: 2, data: vec![9; n2 as usize] }])), StubOp::RecvOne, StubOp::RecvOne, StubOp::Close]),
+        2 => (vec![Op::Send(n1), Op::Send(n2), Op::Serve], vec![StubOp::RecvOne, StubOp::RecvOne, StubOp::Send(RPdu::ReleaseRq), StubOp::RecvOne, StubOp::Close]),
+        _ => (vec![Op::Release], vec![StubOp::Serve, StubOp::Close]),
+    };
+    let seed = w.below(1 << 30) as u64;
+    let base = one_session(env, seed, real_is_requestor, is_async, &script, &stub, None, None);
+    if let Some(p) = &base.panicked {
+        fail!("no-panic", format!("c34:assoc:{}:panic", who), "node panicked without any fault: {}", p);
+    }
+    check!(base.finished, "terminates", format!("c34:assoc:{}:stuck", who), "fault-free session does not finish: {:?}", base.stuck);
+    check!(base.side.established && base.side.log.iter().all(|l| l.ok), "fault-free", format!("c34:assoc:{}:fault-free-fails", who), "the fault-free session fails: established={} err={:?} log={:?}", base.side.established, base.side.err, base.side.log);
+    let (s_total, r_total) = (base.sent, base.received);
+    // a window of consecutive offsets in one direction; all offsets are covered across runs
+    let dir_sent = w.chance(1, 2);
+    let total = if dir_sent { s_total } else { r_total };
+    // half of the windows start after the association PDU (most bytes of a short session belong to it)
+    let handshake = {
+        let ep = &base.end.eps[base.real_ep];
+        let peer = &base.end.eps[base.peer_ep];
+        let bytes = if dir_sent { &ep.sent } else { &peer.sent };
+        rp::frame(bytes).0.first().map(|f| 6 + f.1.len()).unwrap_or(0).min(total)
+    };
+    let k0 = if w.chance(1, 2) { w.below(total as u32 + 1) as usize } else { handshake + w.below((total - handshake) as u32 + 1) as usize };
+    const WINDOW: usize = 8;
+    env.with(|e| e.obs.note_with(|| format!("{} script {:?} stub {}; fault-free: sent {} received {}; cutting {} offsets {}..{}", who, script, stub_desc(&stub), s_total, r_total, if dir_sent { "sent" } else { "received" }, k0, k0 + WINDOW)));
+    for k in k0..(k0 + WINDOW).min(total + 1) {
+        let s = one_session(env, seed, real_is_requestor, is_async, &script, &stub, if dir_sent { Some(k) } else { None }, if dir_sent { None } else { Some(k) });
+        let what = format!("connection lost after {} of {} bytes {}", k, total, if dir_sent { "sent" } else { "received" });
+        if let Some(p) = &s.panicked {
+            fail!("no-panic", format!("c34:assoc:{}:panic", who), "{}: node panicked: {}", what, p);
+        }
+        check!(s.finished, "terminates", format!("c34:assoc:{}:stuck", who), "{}: the session does not finish: {:?}", what, s.stuck);
+        env.probe(if dir_sent { "assoc-cut-sent-offset" } else { "assoc-cut-received-offset" });
+        let ep = &s.end.eps[s.real_ep];
+        let peer = &s.end.eps[s.peer_ep];
+        // establishment: Ok only if the whole exchange of association PDUs happened
+        let (my_frames, _) = rp::frame(&ep.sent);
+        let got = &peer.sent[..ep.received.min(peer.sent.len())];
+        let (their_frames, _) = rp::frame(got);
+        if s.side.established {
+            check!(!my_frames.is_empty() && !their_frames.is_empty(), "ok-means-done", format!("c34:assoc:{}:established-without-exchange", who), "{}: establish returned Ok but the association PDUs were not completely exchanged (sent {} complete PDUs, received {})", what, my_frames.len(), their_frames.len());
+            env.probe("assoc-established-under-cut");
+        } else {
+            env.probe("assoc-establish-failed-under-cut");
+        }
+        // the operations: the same Ok-means-done oracles as C30 (faults = true: failures are legitimate)
+        check_side(env, who, &s.side, ep, peer, true).map_err(|mut v| {
+            v.msg = format!("{}: {}", what, v.msg);
+            v.class = v.class.replace("c30:", "c34:assoc:");
+            v
+        })?;
+        // and nothing may succeed that the fault-free run does not do
+        if s.side.log.iter().all(|l| l.ok) && s.side.log.len() == base.side.log.len() && s.side.established {
+            env.probe("assoc-complete-despite-cut");
+        } else {
+            env.probe("assoc-error-reported");
+        }
     }
     Ok(())
 }
